@@ -124,6 +124,11 @@ type crashTracker struct {
 func RunCrash(p Params) *Result {
 	prof := *Profiles["C05"]
 	r := simrt.NewRand(simrt.Mix(p.Seed, 11))
+	if r.Fork(99).Chance(1, 3) {
+		// asynchronous mode: the flusher writes between and inside the client's calls;
+		// what was not flushed may be lost, but nothing may be unreadable or stale unnoticed
+		prof = *Profiles["C05A"]
+	}
 	cfg := GenConfig(r.Fork(1), &prof)
 	pools := GenPools(r.Fork(2), 3)
 	ops := GenOps(r.Fork(3), cfg, pools, &prof)
@@ -140,6 +145,7 @@ func RunCrash(p Params) *Result {
 		}
 	}
 	s := NewSeq(w, cfg, &prof, pools, kept)
+	s.everAsync = cfg.Async
 	tr := &crashTracker{maxPer: 60}
 	only := -1
 	if v, ok := p.Extra["only_op"]; ok {
@@ -208,7 +214,13 @@ func (s *Seq) crashStates(tr *crashTracker, entries []simrt.LogEntry, op *Op) {
 	live := s.W.FS.Snapshot()
 	logOn := s.W.FS.LogOn
 	s.W.FS.LogOn = false
+	// nothing else runs while the disk is swapped: not the flusher of the main
+	// handle, nor the flushers the fresh handles start (unwound afterwards)
+	s.W.Exclusive(true)
+	mark := s.W.TaskMark()
 	defer func() {
+		s.W.KillSince(mark)
+		s.W.Exclusive(false)
 		s.W.FS.Restore(live)
 		s.W.FS.LogOn = logOn
 	}()
@@ -325,13 +337,28 @@ func (s *Seq) checkRecovery(desc string, before, after *model.Model, complete bo
 	if ferr != nil {
 		s.fail("crash", "object-file-unreadable:"+window, "%s: an object file is left unreadable: %v", desc, ferr)
 	}
-	// every acknowledged operation is reflected; the interrupted one is
-	// applied to each object entirely or not at all
-	if e := objectsOldOrNew(files, before, after); e != nil {
-		s.fail("crash", "object-neither-old-nor-new:"+window, "%s: %v", desc, e)
-	}
-	if complete && !modelsEqual(files, after) {
-		s.fail("crash", "completed-call-not-on-disk", "%s: the call completed but the files do not hold its result", desc)
+	if s.Cfg.Async || s.everAsync {
+		// asynchronous writes: a file holds some accepted version of its object
+		for _, l := range files.Lids() {
+			_, liveB := before.Objs[l]
+			_, liveA := after.Objs[l]
+			if !liveB && !liveA {
+				s.fail("crash", "deleted-object-on-disk:"+window, "%s: lid=%d was deleted before this call, yet its file exists", desc, l)
+			}
+			if !s.History[l][model.JSON(files.Objs[l])] {
+				s.fail("crash", "file-holds-never-accepted-value:"+window, "%s: the file of lid=%d holds %s, which was never an accepted value of that object", desc, l, model.JSON(files.Objs[l]))
+			}
+		}
+		s.stat("probe:async-crash-state")
+	} else {
+		// every acknowledged operation is reflected; the interrupted one is
+		// applied to each object entirely or not at all
+		if e := objectsOldOrNew(files, before, after); e != nil {
+			s.fail("crash", "object-neither-old-nor-new:"+window, "%s: %v", desc, e)
+		}
+		if complete && !modelsEqual(files, after) {
+			s.fail("crash", "completed-call-not-on-disk", "%s: the call completed but the files do not hold its result", desc)
+		}
 	}
 	if !detected {
 		if cerr := db.Control(); cerr != nil {
